@@ -653,9 +653,9 @@ func (e *escaper) escapeTree(c context, node parse.Node, name string, line int) 
 		return out, dname
 	}
 	t := e.template(name)
-	if ht := e.ns.set[name]; ht != nil && ht.Tree == nil && ht.text.Tree == nil {
+	if ht := e.ns.set[name]; ht != nil && ht.Tree == nil && t != nil && t != ht.text {
 		// The template has been replaced by New(name) and has no body yet; the underlying
-		// text/template set may still hold the body of the template it replaced.
+		// text/template set still holds the template it replaced.
 		t = nil
 	}
 	if t == nil {
